@@ -872,7 +872,11 @@ func nameSet(t *runner[pdf.Name], n int, style int) []pdf.Name {
 			set[pdf.Name(fmt.Sprintf("key%04d", i))] = true
 		}
 	case 3: // one long common prefix (of 00s, of FFs, or arbitrary), then all strings over {00,FF}, shortest first
-		pre := make([]byte, []int{1, 2, 31, 32, 127, 128, 255, 256, 300}[e.Rand.IntN(9)])
+		pl := []int{1, 2, 31, 32, 127, 128, 255, 256, 300}[e.Rand.IntN(9)]
+		if n > 100 && pl > 32 {
+			pl = 32 // the long prefixes are for the small sets: the model works on lists of bytes
+		}
+		pre := make([]byte, pl)
 		switch e.Rand.IntN(3) {
 		case 0:
 		case 1:
@@ -1107,7 +1111,9 @@ func intCorpus(thorough bool) (small, grid [][]pdf.Integer) {
 	}
 	for gi, g := range []uint64{1 << 32, 1<<63 - 1, 1 << 63, math.MaxUint64} {
 		for si, sh := range bigShapes {
-			grid = append(grid, gapSet(sh[0], sh[1], g, (gi+si)%3))
+			if thorough || (gi+si)%3 == 1 {
+				grid = append(grid, gapSet(sh[0], sh[1], g, (gi+si)%3))
+			}
 		}
 	}
 	return small, grid
@@ -1121,7 +1127,7 @@ func nameCorpus(thorough bool) (small, grid [][]pdf.Name) {
 		{""}, {"", "\x00"}, {"", "\xff"}, {"\x00", "\xff"}, {"", "\x00", "\x00\x00", "\x00\xff", "\xff", "\xff\x00", "\xff\xff"},
 		{"a\x00", "a\xff"}, {"a", "a\x00", "a\xff", "b"}, {"a\xff", "b"}, {"a\xff\xff", "b\x00"}, {"\x7f", "\x80"}, {"\x7f\xff", "\x80\x00"},
 		{rep(0xff, 300), rep(0xff, 301)}, {rep(0, 300), rep(0, 301)}, {rep('x', 255) + "\x00", rep('x', 255) + "\xff"},
-		{rep('x', 256), rep('x', 256) + "\x00", rep('x', 256) + "\xff", rep('x', 257)},
+		{rep('x', 256), rep('x', 256) + "\x00", rep('x', 257), rep('x', 256) + "\xff"},
 	}
 	// n names with one common prefix that differ in a fixed-width tail over {00,FF}; the step from
 	// key sp-1 to key sp is the one from ...FF to a longer common prefix
@@ -1720,6 +1726,9 @@ func runKind[K cmp.Ordered](e *common.Env, kd *kind[K], id *int,
 	}
 	for _, n := range bsizes {
 		for style := 0; style < nStyles; style++ {
+			if style >= 3 && n >= 1000 && !e.Thorough {
+				continue
+			}
 			ks := set(t, n, style)
 			t.testWrite(ks, probes(t, ks, 200, 60), false, fmt.Sprintf("boundary-size-style%d", style), t.nextCfg())
 		}
@@ -1741,7 +1750,7 @@ func runKind[K cmp.Ordered](e *common.Env, kd *kind[K], id *int,
 		t.testWrite(ks, probes(t, ks, 40, 25), kd.writeMap != nil && n%2 == 1, "all-sizes", t.nextCfg())
 	}
 	// random sizes, random styles; WriteMap where available
-	for i := 0; i < e.Pick(150, 3000); i++ {
+	for i := 0; i < e.Pick(110, 3000); i++ {
 		n := e.Rand.IntN(700)
 		if e.Rand.IntN(e.Pick(25, 8)) == 0 {
 			n = 3900 + e.Rand.IntN(400)
@@ -1801,7 +1810,7 @@ func main() {
 	runKind(e, nameKind, &id, nameSet, nameProbes, nameCorpus)
 	runKind(e, numKind, &id, intSet, intProbes, intCorpus)
 	e.Finish("key sets: every size 0..200 (thorough 0..600), sizes at the boundaries of 64, 63*64 and 64*64 up to 6000 (thorough 20000), random sizes; "+
-		"names over arbitrary bytes (empty name, prefixes and 00/FF extensions of each other, all strings over {00,FF}, key%04d), integers incl. int64 extremes, dense and sparse; "+
+		"names over arbitrary bytes (empty name, prefixes and 00/FF extensions of each other, all strings over {00,FF}, key%04d), integers incl. int64 extremes, dense and sparse; keys of extreme magnitude and neighbours at extreme distances: integer sets whose consecutive keys differ by 2^31-1 .. 2^32+1, 2^62, 2^63-1, 2^63, 2^63+1 and 2^64-1 at the first, an inner and the last position of a leaf and of an intermediate node (so that they are /Limits of neighbouring nodes), runs whose every step is near 2^31 or 2^32 starting at MinInt64, around zero or ending at MaxInt64; names with common prefixes of up to 1000 bytes, differing only in the last byte 00/FF, prefixes of each other, the empty name - hand-picked sets in all eight configurations through Write and WriteMap; "+
 		"probes: present keys (all for small sets), below the minimum, above the maximum, immediate successors, prefixes, random; "+
 		"written with the real Write/WriteMap in eight writer configurations (PDF 1.4/1.7/2.0, HumanReadable, seekable or not, while a stream is open on the same Writer so that Put defers the node objects, a second tree written from inside the iterator of the first), file reopened; unsorted/duplicate key sequences; hand-built valid and mutated trees for the readers; every returned iter.Seq2 ranged four times (abandoned passes, Lookup in between); histories on one InMemory value (enumerate / Lookup / Write / Embed interleaved with add, delete, replace-key-same-count and update-value on its Data map); graphs of node objects (kids shared, listed twice, cyclic, dangling, not dictionaries; chains of diamonds and ladders of up to 300 levels) read under a watchdog; "+
 		"non-trivial = more than one key (W cases) or any hand-built tree, distinct by key set / tree", nil)
